@@ -68,9 +68,12 @@ func (r *Eval) Run(ctx context.Context, script []byte) (Object, *Bytecode, error
 	}
 
 	r.VM.modulesCache = r.ModulesCache
-	ret, err := r.run(ctx)
+	ret, ran, err := r.run(ctx)
 	r.ModulesCache = r.VM.modulesCache
-	r.Locals = r.VM.GetLocals(r.Locals)
+	if ran {
+		// otherwise the stack still is what Clear left behind
+		r.Locals = r.VM.GetLocals(r.Locals)
+	}
 	r.VM.Clear()
 
 	if err != nil {
@@ -79,7 +82,7 @@ func (r *Eval) Run(ctx context.Context, script []byte) (Object, *Bytecode, error
 	return ret, bytecode, nil
 }
 
-func (r *Eval) run(ctx context.Context) (ret Object, err error) {
+func (r *Eval) run(ctx context.Context) (ret Object, ran bool, err error) {
 	ret = Undefined
 	doneCh := make(chan struct{})
 	// Always check whether context is done before running VM because
@@ -90,6 +93,7 @@ func (r *Eval) run(ctx context.Context) (ret Object, err error) {
 		r.VM.Abort()
 		err = ctx.Err()
 	default:
+		ran = true
 		go func() {
 			defer close(doneCh)
 			ret, err = r.VM.Run(r.Globals, r.Locals...)
